@@ -43,6 +43,9 @@ CHECKS = {
  "C04": (True, MC, "same state/value exploration as C03; instance documents printed independently from the reference infoset in three namespace styles and deserialized by the compiled generated code",
          "For every value of every C03 state three instance documents (fresh prefixes; default namespace + prefixes; default namespace re-declared per element) are printed by the harness from the expected infoset and deserialized into the generated type; the result must equal ({:?}) the value built by literal, its re-serialization must be infoset-equal to the instance, and serialize-deserialize-serialize must be a fixpoint. Instances beyond the carrier type (2^31 for the xs:integer family, long decimals) are added. A discrepancy is excluded only when hand-rule reference structs printed from the reference model fail the identical observation (second compile round; excluded shapes and counts are in the evidence).",
          "Same caps and masking as C03. One open known finding (integer family in i32 / decimal in f64 lose schema-valid values).", "4/C04"),
+ "C09": (True, MC, "complete product of reference kind x target namespace x prefix situation x declaration order x decoys, run on the real generator; resolution judged on the syn item model",
+         "The local name Thing is reused as complex type and global element in both namespaces, as a local element, as an attribute, as WSDL message and part name; every carrier has a unique marker member. For the complete product {type=, base=, ref=} x {own, imported namespace} x {own prefixes, the prefix tns bound to different URIs in the two files, default namespace} x {declared before, after use} x {decoys absent, present} (72 states) and for part element= x {WSDL's, imported namespace} x parts {explicit, absent}, the referring struct must lead (through aliases) to the struct that declares the expected namespace and carries the expected marker, and inherited/ref members must be bound to the declaring namespace.",
+         "Two namespaces/files; carriers identified by declared namespace + marker member.", "4/C09"),
 }
 
 NOT_YET = {
